@@ -398,7 +398,9 @@ func c08EveryPosition(t *testing.T, r *Rec) {
 		typ string
 	}{{Str(" "), "str"}, {Str("  "), "str"}, {Bin("~", Str(" "), Str(" ")), "str"}, {Cond(Var("t"), Str("  "), Str("")), "str"}, {Idx(List(Str(" "), Str("x")), Int(0)), "str"},
 		{Filt(Str(" x "), "upper"), "str"}, {Bin("~", Str("a  b"), Int(1)), "str"}, {Bin("+", Int(2000000000), Int(1)), "int"}, {Bin("==", Int(2000000000), Int(2000000001)), "bool"},
-		{Bin("!=", Bin("+", Int(1<<40), Int(1)), Int(1<<40)), "bool"}, {Str("0"), "str"}, {Str("false"), "str"}}
+		{Bin("!=", Bin("+", Int(1<<40), Int(1)), Int(1<<40)), "bool"}, {Str("0"), "str"}, {Str("false"), "str"},
+		// literals that need escapes, alone in the position
+		{Str("it's"), "str"}, {&E{K: "str", S: "say \"hi\"", Q: 1}, "str"}, {Str("back\\slash"), "str"}, {Str("a'b\"c"), "str"}, {&E{K: "str", S: "q'q", Q: 1}, "str"}}
 	var ctx Ctx
 	ctx.Set("t", Bool(true))
 	ctx.Set("nul", Null())
@@ -417,7 +419,7 @@ func c08EveryPosition(t *testing.T, r *Rec) {
 }
 
 func TestC08Triples(t *testing.T) {
-	r := NewRec(t, "C08", "exhaustive: 12 expressions whose value is a string of blanks, '0', 'false', a large integer or a comparison of neighbouring large integers, in each of the 20 positions; every triple of the 12 representative binary operators (all 6 precedence levels) over 4 operands in all 5 tree shapes, operands typed as the operators require, 3 operand value sets; each tree printed with the fewest parentheses the table permits and fully parenthesised; non-trivial = the tree mixes two precedence levels; shapes that cannot be typed inside the property's operand domain are excluded and counted")
+	r := NewRec(t, "C08", "exhaustive: 17 expressions whose value is a string of blanks, '0', 'false', a string literal that needs escapes, a large integer or a comparison of neighbouring large integers, in each of the 20 positions; every triple of the 12 representative binary operators (all 6 precedence levels) over 4 operands in all 5 tree shapes, operands typed as the operators require, 3 operand value sets; each tree printed with the fewest parentheses the table permits and fully parenthesised; non-trivial = the tree mixes two precedence levels; shapes that cannot be typed inside the property's operand domain are excluded and counted")
 	defer r.Flush()
 	r.SetExhaustive()
 	c08EveryPosition(t, r)
